@@ -69,6 +69,20 @@ Proof.
     rewrite map_app. reflexivity.
 Qed.
 
+(* the same for the file source of the target-cursor mode, which ignores a cursor below the start block *)
+Lemma through_run_prefix canon forked start c stop bundle :
+  asc (file_delivery canon start stop bundle) ->
+  (forall b, In b (file_delivery canon start stop bundle) -> bid b = ri (cu_blk c) -> bnum b = rn (cu_blk c)) ->
+  exists D1 D2, file_delivery canon start stop bundle = D1 ++ D2 /\
+    fst (through_cursor_run canon forked start c stop bundle) = map fev D1 /\
+    (snd (through_cursor_run canon forked start c stop bundle) = RsOk \/
+     snd (through_cursor_run canon forked start c stop bundle) = RsNotImplemented).
+Proof.
+  intros Hasc Hcons. unfold through_cursor_run, through_resolver_run. destruct (rn (cu_blk c) <? start).
+  - exists (file_delivery canon start stop bundle), []. rewrite app_nil_r. cbn [fst snd]. auto.
+  - apply through_prefix; assumption.
+Qed.
+
 (* ------------------------------------------------------------------ hub_through_cursor for a number *)
 
 Section Through.
@@ -316,9 +330,10 @@ Section TargetRun.
                           0 ps []) in
               exists st, sfold [] (fst X) = Some st /\
                 (snd X = JNil -> (exists D1 D2, D = D1 ++ D2 /\ rev st = D1) \/ from_num start (rev st) = from_num start canon)).
-    { intros fuel lowest. unfold through_cursor_run. fold D.
-      destruct (through_prefix cu forked D Hasc Hcons) as (D1 & D2 & ED & Hfst & _).
-      destruct (resolver_run cu true forked rs_init D) as [fevs r]. cbn [fst] in Hfst. subst fevs.
+    { intros fuel lowest.
+      destruct (through_run_prefix merged forked start cu file_bound (j_bundle c) Hasc Hcons) as (D1 & D2 & ED & Hfst & _).
+      fold D in ED.
+      destruct (through_cursor_run merged forked start cu file_bound (j_bundle c)) as [fevs r]. cbn [fst] in Hfst. subst fevs.
       assert (Hl1 : exists x, lnk x ([] ++ D1)) by (exists x0; rewrite ED in HlD; eapply linked_prefix; exact HlD).
       assert (Hin1 : forall b, In b ([] ++ D1) -> In b merged) by (intros b Hb; apply HinD; rewrite ED; apply in_or_app; left; exact Hb).
       assert (Hbot1 : forall z r0, [] ++ D1 = z :: r0 -> bnum z <= start).
